@@ -8,7 +8,7 @@ from av.props import simprop
 MANIFEST_ENTRY = {
     "category": "exploration",
     "technique": "history recorder on the integrator's program calls (coverage dict and outcomes actually used at each step) checked offline against the finished Result's reported coverage / capacity / eligible / number / spending and against an independent recomputation of every targeted parameter value; generated, library and shipped (corpus) program books under perturbation",
-    "text": "A harness-side wrapper on ProgramSet.get_outcomes (tagged with the step index from Model.update_pars) records the coverage each step of the real run used. After the run: recorded coverage == Result.get_coverage('fraction') at that step; capacity, eligible, number and get_alloc are mutually consistent with it and with an independent stepped interpolation of the spending / unit cost / constraint series and overwrites; every targeted (parameter, population) at every active step equals clip(conv(ProgramSet.get_outcomes(reported coverage))) with conv = x source size / dt for number parameters and / dt for probability/rate; outside [start, stop] and for untargeted parameters/populations the value equals the run without programs wherever the model state agrees (before the start) and never equals a program outcome by construction of the recomputation in C06. Every 8th case runs a shipped model with one of its program books at other step sizes, hostile calibration factors, budgets scaled by 0 ... 1000 and start years on and off the grid. After the run the caller's program set and instructions are edited and every report of the finished result is queried again: it must not move.",
+    "text": "A harness-side wrapper on ProgramSet.get_outcomes (tagged with the step index from Model.update_pars) records the coverage each step of the real run used. After the run: recorded coverage == Result.get_coverage('fraction') at that step; capacity, eligible, number and get_alloc are mutually consistent with it and with an independent stepped interpolation of the spending / unit cost / constraint series and overwrites; every targeted (parameter, population) at every active step equals clip(conv(ProgramSet.get_outcomes(reported coverage))) with conv = x source size / dt for number parameters and / dt for probability/rate; outside [start, stop] and for untargeted parameters/populations the value equals the run without programs wherever the model state agrees (before the start) and never equals a program outcome by construction of the recomputation in C06. Every 8th case runs a shipped model with one of its program books at other step sizes, hostile calibration factors, budgets scaled by 0 ... 1000 and start years on and off the grid. After the run the caller's program set and instructions are edited and every report of the finished result is queried again: it must not move. Half of the generated stop years are exactly simulation times; 15% of the generated programs list a sink or junction among their target compartments.",
     "note": "Workloads deliberately include programs starting at the first time point with a number-unit target fed by an initialised junction (start-up ordering). Derivative parameters and aggregated parameters are not targetable in the generated workloads.",
 }
 
